@@ -33,7 +33,7 @@ try:
                            env=dict(env, CARGO_TARGET_DIR=tdir), capture_output=True, text=True, timeout=1500)
         if c.returncode == 0:
             env["VX_CLI_BIN"] = os.path.join(tdir, "release", "varlink")
-    if pat.startswith("C19") or pat.startswith("C08"):
+    if pat.startswith("C19") or pat.startswith("C08") or pat.startswith("C16"):
         tdir = os.path.join(build, "cert-target")
         c = subprocess.run(["cargo", "build", "--release", "--offline", "-q", "-p", "varlink-certification"], cwd=repo,
                            env=dict(env, CARGO_TARGET_DIR=tdir), capture_output=True, text=True, timeout=1500)
@@ -41,7 +41,7 @@ try:
             env["VX_CERT_BIN"] = os.path.join(tdir, "release", "varlink-certification")
     r = subprocess.run([os.path.join(env["CARGO_TARGET_DIR"], "release", "vx-replay"), pat], env=env, capture_output=True, text=True, timeout=900)
     out = r.stdout
-    if pat[:3] in ("C08", "C18", "C19", "C20") and '"found":true' in out:
+    if pat[:3] in ("C08", "C16", "C18", "C19", "C20") and '"found":true' in out:
         # these searches drive real processes over sockets with timeouts: a failing history is reported only if it fails again on a second run
         import json, time
         time.sleep(1.0)
